@@ -147,6 +147,29 @@ CHECKS = {
          "trxcon's trx_if_handle_phyif_burst_req must be parsed back by TxMsg to the same values.",
          "Reference layout transcribed from the property text; trxcon built with a stand-in for the system libosmocore fsm/socket layer; AB modulation code read with a TSC-set bit (see DESIGN 4 row 10).",
          "DESIGN.md 2/C04", "enum+cbuild"),
+ "C15": ("fault_enumeration",
+         "exhaustive enumeration of write histories x every truncation offset x every read call on the real DATADumpFile over BytesIO, list-of-records reference",
+         "All histories of <=3 (quick) / <=4 (thorough) messages from an 11-entry menu (Tx/Rx, v0/v1, every modulation, NOPE), written with "
+         "append_msg/append_all in four patterns; every byte offset of every file image is a crash point (4.9e5 / 5.4e6 distinct images); on each image "
+         "parse_all(), parse_all(skip, count) over the complete skip x count product and parse_msg(i) for every index are compared field by field with "
+         "the records wholly before the cut; no call may raise.",
+         "Identical truncated images of different histories are read once (prefix stability is checked separately); deep in-body cuts use a thinned skip x count product in quick.",
+         "DESIGN.md 2/C15", "enum"),
+ "C16": ("exploration",
+         "complete enumeration of a bounded definition grammar (envelopes of <=3/4 fields from a 29-atom menu, all bit-field compositions, nesting, sequences) x boundary-value assignments, generic reference packer",
+         "4.0e4 (quick) / 5.1e5 (thorough) generated codec definitions, each with the complete product of per-field boundary values (capped, cap recorded), "
+         "one-at-a-time illegal values, every truncation, a trailing octet, fixed-value flips and lying length fields; encode is compared octet by octet "
+         "with an independent packer, decode(encode(v)) = v, encode(decode(b)) = b, consumed length = declared length, and only DecodeError/EncodeError may be raised.",
+         "Grammar bounded as stated in coverage.rule; hooks outside the statement (Envelope.check, definition-time errors) left out.",
+         "DESIGN.md 2/C16", "enum"),
+ "C17": ("exploration",
+         "bounded-exhaustive enumeration of PDU field values for v0/v1/v2 in both directions, all 256 MTS octets, all batched sub-PDU combinations up to 3/4, and a differential run of the message codec's datagrams",
+         "Every PDU class encodes to the reference layout (vlib/ref/trxd.py, trxd_v2.py) and decodes what it encodes; all modulation codes incl. reserved "
+         "ones, NOPE, TRXN, batch/shadow and reserved bits, every wrong version nibble, every truncation; v2 PDUs with 0..3 (quick) / 0..4 (thorough) batched "
+         "sub-PDUs completely (8e4 / 1e6 datagrams) and sweeps up to 8; 3.5e4 / 2.8e5 datagrams produced by data_msg (GSM/EDGE, legacy padding on Rx) "
+         "must be accepted with identical field values.",
+         "One open known finding (access-burst modulation with TSC set 1, MTS 0111): the given C13 and C17 texts disagree about it; see known_findings.json.",
+         "DESIGN.md 2/C17", "enum"),
 }
 
 PENDING = {}
